@@ -9,7 +9,7 @@ import nodecheck
 from nodecheck import Obs, kv, parse_msg, parse_cfg
 
 PROP = "C09"
-MODULES = ["DV.Properties.C09"]
+MODULES = ["DV.Properties.C09", "DV.Properties.C09Race", "DV.Properties.C09Tables"]
 KEEP = {"OUT": None, "APP": None, "CONN": ["state", "live"]}
 
 
@@ -141,13 +141,113 @@ def scenarios(rng: random.Random, tier: str):
     return out
 
 
+# ------------------------------------------------------ racing submissions
+def race(res: Result, tier: str, fails: list, div: list):
+    """2..3 threads submit an answer for the same pending request: the real `route_answer`
+    (current source, stepped line by line) under every interleaving with a bounded number
+    of preemptions; at most one may get through.  The order of the shared-state steps
+    (lookup test / removal line) of each run is replayed on the Lean model."""
+    import linesched
+    import sim as simmod
+    import extract_threads
+    from common import run_driver
+    line = (nodegen.CONFIGS["basic"] + " | start | acc | rx 0 " + nodegen.cer("peer1.x", "4", 901, 902) + " | rx 0 " +
+            nodegen.ccr(903, 904))
+    parts = [p.strip() for p in line.split("|")]
+    sm = simmod.Sim(parts[0][5:].strip())
+    lines, reals = [], []
+    total = 0
+    try:
+        for ev in parts[1:]:
+            sm.event(ev)
+        node, app = sm.node, sm.apps[0]
+        req = [m for i, m in sm.app_requests if i == 0][0]
+        conn = sm.conns[0]
+        type_node = type(node)
+        shape = extract_threads.route_answer_shape(type_node.route_answer)
+        shared_lines = set(shape["lookup"]) | ({shape["removal"]} if shape["removal"] else set())
+        step_fn = linesched.stepper(type_node.route_answer)
+        table0 = {k: dict(v) for k, v in node._peer_waiting_answer.items()}
+        ans = app.generate_answer(req, result_code=2001)
+
+        class T(linesched.Thread):
+            """records which shared-state lines it executed (a line has run when the next yield arrives)"""
+
+            def __init__(self, k, log):
+                self.k, self.log, self.at = k, log, None
+                super().__init__([lambda: step_fn(node, ans)])
+
+            def _advance_call(self):
+                super()._advance_call()
+
+            def step(self):
+                before = self.at
+                self.blocked_on = None
+                try:
+                    y = next(self.gen)
+                    self.at = y[1] if y[0] == "line" else self.at
+                except StopIteration as e:
+                    self.results.append(("ok", "returned a connection"))
+                    self.gen, self.done, self.at = None, True, None
+                except Exception as e:  # noqa
+                    self.results.append(("raised", type(e).__name__))
+                    self.gen, self.done, self.at = None, True, None
+                if before in shared_lines:
+                    self.log.append(self.k)
+
+        def make(nthr, log):
+            node._peer_waiting_answer.clear()
+            node._peer_waiting_answer.update({k: dict(v) for k, v in table0.items()})
+            log.clear()
+            ths = [T(k, log) for k in range(nthr)]
+            for t in ths:       # the generator is primed at its first line (line numbers are relative to the def)
+                t.at = None
+            return ths
+
+        for nthr, bound in ((2, 3), (3, 2)) if tier == "quick" else ((2, 4), (3, 3), (4, 2)):
+            log: list = []
+
+            def on_run(ths, trace, nthr=nthr, log=log):
+                got = [t.results[0] if t.results else ("unfinished", None) for t in ths]
+                through = sum(1 for g in got if g[0] == "ok")
+                lines.append(f"RRACE {nthr} " + ",".join(map(str, log)))
+                reals.append(f"sent={through}")
+                if through > 1:
+                    fails.append({"what": f"{through} concurrent submissions of an answer for one pending request all got through "
+                                          "route_answer (each would be transmitted): the second one must fail",
+                                  "kind": "race", "threads": nthr, "schedule": [c for c, _, _ in trace],
+                                  "real": str(got), "line": "route_answer x%d, shared-step order %s" % (nthr, log)})
+                    return True
+                return False
+            with linesched.deadline(120):
+                runs, _ = linesched.explore(lambda: make(nthr, log), bound, on_run, max_runs=3000 if tier == "quick" else 60000)
+            total += runs
+            res.count(f"racing submissions {nthr} threads b{bound}", runs)
+    finally:
+        sm.close()
+    outs = run_driver(lines)
+    for l, r, m in zip(lines, reals, outs):
+        res.cases += 1
+        if m.split(" ")[0] != r:
+            div.append({"line": l, "real": r, "model": m})
+        else:
+            res.nontrivial.add(l)
+    res.traces_validated += len(lines)
+    res.extra["race_schedules"] = total
+
+
 def run(res: Result, tier: str, seed: int):
     rng = random.Random(seed * 1000003 + 9)
     res.rule = ("1..3 peers sending 1..4 concurrent requests (a quarter of the cases with equal hop-by-hop ids on different "
                 "connections), answers submitted in every order, with connection loss / read error / DPR / reconnection of the "
                 "requester injected between arrival and answer, second answers; oracle on the virtual socket logs; real vs model "
                 "on OUT/APP")
-    return nodecheck.run(res, scenarios(rng, tier), KEEP, oracle)
+    fails, div = nodecheck.run(res, scenarios(rng, tier), KEEP, oracle)
+    rfails, rdiv = [], []
+    race(res, tier, rfails, rdiv)
+    res.rule += ("; 2..4 threads submitting an answer for one pending request: real route_answer stepped line by line under every "
+                 "interleaving with up to 2..4 preemptions, at most one gets through; shared-step order replayed on the Lean model")
+    return fails + rfails, div + rdiv
 
 
 def signature(f: dict):
@@ -158,4 +258,5 @@ def search(res: Result, seed: int, broken) -> list:
     rng = random.Random(seed * 7919 + 73)
     r2 = Result(PROP, "thorough", seed)
     fails, _ = nodecheck.run(r2, scenarios(rng, "quick"), KEEP, oracle)
+    race(r2, "thorough", fails, [])
     return fails
